@@ -449,6 +449,21 @@ def extract_cwrappers(src_text, calls):
                     out += [('op', '('), ('id', 'int'), ('op', ')')]
                     k += 1
                     continue
+                # [std::]strncpy(DST, SRC.c_str(), N)  -> BUF_COPYN(DST, SRC, N)   with SRC.size()/length() -> STRLEN(SRC)
+                if toks[k][1] == 'strncpy' and v[1] == '(':
+                    p1 = match_close(toks, k + 1)
+                    inner = [t[1] for t in toks[k + 2:p1]]
+                    if len(inner) >= 9 and inner[1] == ',' and inner[3:7] == ['.', 'c_str', '(', ')'] and inner[7] == ',':
+                        n_ = ' '.join(inner[8:])
+                        n_ = re.sub(r'(\w+) \. (?:size|length) \( \)', r'STRLEN ( \1 )', n_)
+                        if '.' in n_.split():
+                            raise ExtractionBreak('strncpy length expression %r' % n_)
+                        if out and out[-1][1] == '::':
+                            out = out[:-2]
+                        out += [('id', 'BUF_COPYN'), ('op', '('), ('id', inner[0]), ('op', ','), ('id', inner[2]), ('op', ',')] + [('id', w) for w in n_.split()] + [('op', ')')]
+                        k = p1 + 1
+                        continue
+                    raise ExtractionBreak('strncpy shape')
                 # [std::]strcpy(DST, SRC.c_str())  -> BUF_COPY(DST, SRC)
                 if toks[k][1] == 'strcpy' and v[1] == '(':
                     p1 = match_close(toks, k + 1)
